@@ -27,7 +27,7 @@ CHECKS = {
          "§5 C02", "Lean 4 lemmas about the rich-layer model (partial) + byte-exact differential correspondence of the whole cycle + independent reader oracle"),
  "C03": ("partial proof: byte-layer fixed point for every input (C19), string references are fixed points after one cycle, pass-through sections are fixed points, and the MRGN / UPRP / WAV section transcoders are proved to be the identity on editor-form tables (generic theorem + instantiation for the regenerated configuration); full identity/idempotence statements kept visible (C03Identity, C03Idempotent), false on the current tree for the recorded findings; byte identity of editor-form maps and idempotence of every map are checked on the real code and the model on every run",
          "§5 C03", "Lean 4 lemmas (partial) + byte-exact differential correspondence + byte-identity / second-cycle oracle"),
- "C10": ("proof over the rich-layer model, for every decoded section list, configuration and iteration order: every pass-through section (unknown, enum-only, recognised without rich model) is emitted identical at its original index, rebuilt/added sections are appended after, and every trigger entry of an unsupported type is carried as a raw record and written back verbatim in list order; partial: position of raw entries inside a trigger after gap compaction (recorded finding) and UPUS recomputation (recorded finding)",
+ "C10": ("proof over the rich-layer model, for every decoded section list, configuration and iteration order: every pass-through section (unknown, enum-only, recognised without rich model) is emitted identical at its original index, rebuilt/added sections are appended after, and every trigger entry of an unsupported type is carried as a raw record, written back verbatim, and keeps its position in every list that has no empty entry before its end; the remaining case (gap compaction) and the UPUS recomputation are recorded findings",
          "§5 C10", "Lean 4 proof (structural induction over the section list / entry list) + differential correspondence + in-place oracle by the independent reader"),
  "C11": ("proof over the encoder model, for every rich content: an emitted trigger has exactly 16 conditions / 64 actions / 27 player bytes or the call raises (oversize lists raise); MRGN, UPRP, UPUS and WAV tables are emitted at their mandated lengths; a written string id is 0 or resolves to exactly the string, a missing string raises KeyError; a written unit-property id is the slot of a stored equal set; entry i of the emitted UPUS is 1 exactly when a set is stored at slot i+1, and a set at an out-of-range slot raises; partial: the whole-file statement (section order, STR offsets in bounds) rests on C08/C09 theorems and is validated by the independent structural validator on every emitted file, including authored degenerate content",
          "§5 C11", "Lean 4 proof of encoder shape lemmas + differential correspondence + independent structural validator"),
